@@ -58,6 +58,15 @@ pub struct Scn {
 
 fn gen_big(rng: &mut Rng) -> Scn {
     let plain = |start_ms: u64| Caller { start_ms, lat_ms: 0, err: false, cancel: CancelSpec::Never, svc: 0 };
+    if rng.chance(1, 5) {
+        // a limit in the thousands (more than any fixed-size buffer an implementation may
+        // keep), one burst that overshoots it, a second burst one period later
+        let limit = *rng.pick(&[1025u32, 1100, 1500]);
+        let p = 50u64;
+        let mut callers: Vec<Caller> = (0..limit + 30).map(|_| plain(0)).collect();
+        callers.extend((0..10).map(|_| plain(p + 1)));
+        return Scn { window: 1, limit, period_ms: p, timeout_ms: 0, listener_panic: false, callers, knobs: SchedKnobs::gen(rng, false, 100), two_services: false, order: 0, inner_capacity: None, period_frac_us: 0, big: 3 };
+    }
     if rng.chance(1, 2) {
         // an older burst has left the window, a younger one is still inside it
         let limit = rng.range(66, 100) as u32;
@@ -144,14 +153,14 @@ pub fn gen(rng: &mut Rng) -> Scn {
 pub fn valid(s: &Scn) -> bool {
     s.window <= 2
         && s.limit >= 1
-        && (s.limit <= 6 || s.limit == u32::MAX || (s.big == 1 && s.limit <= 128))
-        && s.big <= 2
+        && (s.limit <= 6 || s.limit == u32::MAX || (s.big == 1 && s.limit <= 128) || (s.big == 3 && s.limit <= 2048))
+        && s.big <= 3
         && s.period_frac_us <= 999
         && s.period_ms >= 5
         && s.period_ms <= 100
         && (s.timeout_ms <= 400 || s.timeout_ms == u64::MAX)
         && !s.callers.is_empty()
-        && (s.callers.len() <= 20 || (s.big > 0 && s.callers.len() <= 320 && s.callers.iter().all(|c| c.cancel == CancelSpec::Never)))
+        && (s.callers.len() <= 20 || (s.big > 0 && s.callers.len() <= if s.big == 3 { 2100 } else { 320 } && s.callers.iter().all(|c| c.cancel == CancelSpec::Never)))
         && s.callers.iter().all(|c| c.start_ms <= 2000 && (c.lat_ms <= 50 || s.inner_capacity.is_some()))
         && s.knobs.jumps.len() <= 3
         && s.knobs.jumps.iter().all(|j| j.0 <= 1000 && j.1 <= 200)
@@ -200,7 +209,10 @@ pub fn partition_feasible(a: &[u64], l: usize, p: u64) -> bool {
 pub fn run(s: &Scn, ctx: &mut RunCtx, prefix: &'static str) -> RunOutput {
     world::reset();
     let last = s.callers.iter().map(|c| c.start_ms).max().unwrap_or(0);
-    let cfg = s.knobs.cfg(ctx, last + 10 * s.period_ms + if s.timeout_ms == u64::MAX { 30 * s.period_ms } else { s.timeout_ms } + 2000, 0);
+    let mut cfg = s.knobs.cfg(ctx, last + 10 * s.period_ms + if s.timeout_ms == u64::MAX { 30 * s.period_ms } else { s.timeout_ms } + 2000, 0);
+    if s.big == 3 {
+        cfg.max_steps = 20_000;
+    }
     let scn = s.clone();
     let setup = move || {
         world::with(|w| {
@@ -299,12 +311,13 @@ pub fn run(s: &Scn, ctx: &mut RunCtx, prefix: &'static str) -> RunOutput {
     });
     let detail = || {
         format!(
-            "window={} limit={} period={}ms timeout={}ms admissions(us)={:?}",
+            "window={} limit={} period={}ms timeout={}ms admissions(us)={}",
             ["fixed", "sliding_log", "sliding_counter"][s.window as usize],
             l,
             s.period_ms,
             s.timeout_ms,
-            adm
+            // (long histories: the first and last 20)
+            if adm.len() > 48 { format!("{:?} ... {:?} ({} in all)", &adm[..20], &adm[adm.len() - 20..], adm.len()) } else { format!("{:?}", adm) }
         )
     };
     if s.window == 1 {
